@@ -15,6 +15,7 @@ import (
 	"sort"
 	"strconv"
 	"strings"
+	"sync"
 	"time"
 
 	"golang.org/x/tools/go/ssa"
@@ -253,22 +254,45 @@ func cmdCheck(argv []string) int {
 	}
 	// translation self-check: passing paths replayed natively must pass, with the same cover tags
 	wRun, wOK := 0, 0
-	for _, ir := range results {
-		for i, w := range ir.Witnesses {
-			file := writeWitnessFile(vd, id, ir.Inst, w, i)
-			wRun++
-			out := runReplay(vd, file, "")
-			if strings.HasPrefix(out, "passes-natively covers=") {
-				got := strings.TrimPrefix(out, "passes-natively covers=")
-				if got == strings.Join(w.Covers, ",") {
+	{
+		byPkg := map[string][]*witnessJob{}
+		var pkgs []string
+		for _, ir := range results {
+			for i, w := range ir.Witnesses {
+				j := &witnessJob{in: ir.Inst, w: w, file: writeWitnessFile(vd, id, ir.Inst, w, i)}
+				if len(byPkg[ir.Inst.Pkg]) == 0 {
+					pkgs = append(pkgs, ir.Inst.Pkg)
+				}
+				byPkg[ir.Inst.Pkg] = append(byPkg[ir.Inst.Pkg], j)
+			}
+		}
+		var wg sync.WaitGroup
+		sem := make(chan struct{}, 4)
+		for _, pk := range pkgs {
+			wg.Add(1)
+			go func(pk string) {
+				defer wg.Done()
+				sem <- struct{}{}
+				defer func() { <-sem }()
+				runWitnessBatch(vd, pk, byPkg[pk])
+			}(pk)
+		}
+		wg.Wait()
+		for _, pk := range pkgs {
+			for _, j := range byPkg[pk] {
+				wRun++
+				want := strings.Join(j.w.Covers, ",")
+				if j.outcome == "ok" && j.covers == want {
 					wOK++
-					os.Remove(file)
-					os.Remove(strings.TrimSuffix(file, ".json") + ".replay.log")
+					os.Remove(j.file)
 					continue
 				}
-				out = fmt.Sprintf("passes natively but reaches covers [%s], the engine path [%s]", got, strings.Join(w.Covers, ","))
+				out := j.outcome
+				if out == "ok" {
+					out = fmt.Sprintf("passes natively but reaches covers [%s], the engine path [%s]", j.covers, want)
+				}
+				inconcl = append(inconcl, fmt.Sprintf("TRANSLATION-MISMATCH %s: a path the engine completes does not run the same way natively (%s); replay=%s", j.in.Name(), out, j.file))
 			}
-			inconcl = append(inconcl, fmt.Sprintf("TRANSLATION-MISMATCH %s: a path the engine completes does not run the same way natively (%s); replay=%s", ir.Inst.Name(), out, file))
 		}
 	}
 	if wRun > 0 {
@@ -364,6 +388,103 @@ func writeReplayFile(vd, id string, in *Instance, v *Violation, _ interface{}) s
 	b, _ := json.MarshalIndent(rf, "", " ")
 	os.WriteFile(file, b, 0o644)
 	return file
+}
+
+type witnessJob struct {
+	in      *Instance
+	w       *WitnessPath
+	file    string
+	outcome string // "ok", "violation", "panic: …", "not-run"
+	covers  string
+}
+
+// runWitnessBatch replays all witnesses of one package in a single native test binary.
+func runWitnessBatch(vd, pkg string, jobs []*witnessJob) {
+	for _, j := range jobs {
+		j.outcome = "not-run"
+	}
+	tmp, err := os.MkdirTemp("", "symgo-witness-")
+	if err != nil {
+		return
+	}
+	defer os.RemoveAll(tmp)
+	ov := map[string]string{}
+	root := filepath.Join(vd, "harness")
+	filepath.Walk(root, func(path string, info os.FileInfo, err error) error {
+		if err == nil && !info.IsDir() && strings.HasSuffix(path, ".go") {
+			rel, _ := filepath.Rel(root, path)
+			ov[filepath.Join(repoDir, rel)] = path
+		}
+		return nil
+	})
+	pkgName, err := goPackageName(filepath.Join(repoDir, pkg))
+	if err != nil {
+		return
+	}
+	var body strings.Builder
+	for i, j := range jobs {
+		var args []string
+		for _, a := range j.in.Args {
+			args = append(args, fmt.Sprint(a))
+		}
+		fmt.Fprintf(&body, "\t{%d, %q, func() { %s(%s) }},\n", i, j.file, j.in.Func, strings.Join(args, ", "))
+	}
+	test := fmt.Sprintf(`//go:build verif
+
+package %s
+
+import (
+	"fmt"
+	"testing"
+
+	"github.com/jamf/regatta/internal/verif"
+)
+
+func TestVWitness(t *testing.T) {
+	jobs := []struct {
+		i    int
+		file string
+		run  func()
+	}{
+%s	}
+	for _, j := range jobs {
+		fmt.Println("VWITNESS-BEGIN", j.i)
+		if _, err := verif.Load(j.file); err != nil {
+			fmt.Println("VREPLAY-END load-error", err)
+			continue
+		}
+		verif.Run(j.run)
+	}
+}
+`, pkgName, body.String())
+	testFile := filepath.Join(tmp, "zz_vwitness_test.go")
+	os.WriteFile(testFile, []byte(test), 0o644)
+	ov[filepath.Join(repoDir, pkg, "zz_vwitness_test.go")] = testFile
+	ovb, _ := json.Marshal(map[string]interface{}{"Replace": ov})
+	ovFile := filepath.Join(tmp, "overlay.json")
+	os.WriteFile(ovFile, ovb, 0o644)
+	cmd := exec.Command("timeout", "1200", "go", "test", "-vet=off", "-count=1", "-tags", "verif", "-overlay", ovFile, "-run", "^TestVWitness$", "-v", "./"+pkg)
+	cmd.Dir = repoDir
+	cmd.Env = append(os.Environ(), "GOFLAGS=-mod=mod", "GOPROXY=off", "GOSUMDB=off", "GOTOOLCHAIN=local")
+	out, _ := cmd.CombinedOutput()
+	cur := -1
+	for _, l := range strings.Split(string(out), "\n") {
+		l = strings.TrimSpace(l)
+		switch {
+		case strings.HasPrefix(l, "VWITNESS-BEGIN "):
+			fmt.Sscanf(l, "VWITNESS-BEGIN %d", &cur)
+		case strings.HasPrefix(l, "VREPLAY-COVERS") && cur >= 0 && cur < len(jobs):
+			jobs[cur].covers = strings.TrimSpace(strings.TrimPrefix(l, "VREPLAY-COVERS"))
+		case strings.HasPrefix(l, "VREPLAY-END ") && cur >= 0 && cur < len(jobs):
+			jobs[cur].outcome = strings.TrimSpace(strings.TrimPrefix(l, "VREPLAY-END "))
+		}
+	}
+	for _, j := range jobs {
+		if j.outcome == "not-run" {
+			os.WriteFile(strings.TrimSuffix(j.file, ".json")+".replay.log", filterNoise(out), 0o644)
+			break
+		}
+	}
 }
 
 func writeWitnessFile(vd, id string, in *Instance, w *WitnessPath, i int) string {
